@@ -146,6 +146,12 @@ func (pc *virtualPacketConn) ReadFrom(p []byte) (int, net.Addr, error) {
 	}, 1)
 
 	vgate("A1")
+	// A closed connection must not take a packet away from the connections that are still open.
+	select {
+	case <-pc.closeCh:
+		return 0, nil, net.ErrClosed
+	default:
+	}
 	vgate("A2")
 	select {
 	case pc.readCh <- readRequest{
@@ -192,6 +198,7 @@ type multiStreamListener struct {
 	ln          StreamListener
 	count       uint32
 	acceptCh    chan acceptResponse
+	doneCh      chan struct{}
 	onCloseFunc OnCloseFunc
 }
 
@@ -219,9 +226,10 @@ func (m *multiStreamListener) Acquire() (StreamListener, error) {
 		}
 		m.ln = &TCPListener{ln}
 		m.acceptCh = make(chan acceptResponse)
+		m.doneCh = make(chan struct{})
 		// The goroutine works on the listener and channel of this bind only: `m.ln` and
 		// `m.acceptCh` are replaced if the listener is acquired again after its last close.
-		go func(ln StreamListener, acceptCh chan acceptResponse) {
+		go func(ln StreamListener, acceptCh chan acceptResponse, doneCh chan struct{}) {
 			for {
 				vgate("Gaccept")
 				conn, err := ln.AcceptStream()
@@ -230,9 +238,18 @@ func (m *multiStreamListener) Acquire() (StreamListener, error) {
 					return
 				}
 				vgate("Gsend")
-				acceptCh <- acceptResponse{conn, err}
+				select {
+				case acceptCh <- acceptResponse{conn, err}:
+				case <-doneCh:
+					// Every user has closed: nobody is left to hand the connection to.
+					if conn != nil {
+						conn.Close()
+					}
+					close(acceptCh)
+					return
+				}
 			}
-		}(m.ln, m.acceptCh)
+		}(m.ln, m.acceptCh, m.doneCh)
 	}
 
 	m.count++
@@ -248,6 +265,7 @@ func (m *multiStreamListener) Acquire() (StreamListener, error) {
 			if last {
 				m.ln.Close()
 				m.ln = nil
+				close(m.doneCh)
 			}
 			m.mu.Unlock()
 			// The callback takes the manager's lock, so it must not run under `m.mu`:
